@@ -144,6 +144,28 @@ pub fn envelope_strings(rng: &mut Rng, bodies: &[Vec<u8>]) -> Vec<Vec<u8>> {
             }
         }
     }
+    // bodies that themselves end with the trailer bytes
+    for body in bodies.iter().take(10) {
+        for head in [MACRO05_HEAD, MACRO06_HEAD] {
+            let mut s = head.to_vec();
+            s.extend_from_slice(body);
+            s.extend_from_slice(MACRO_TRAIL);
+            s.extend_from_slice(MACRO_TRAIL);
+            out.push(s);
+        }
+    }
+    // near misses: every single byte of the head changed
+    for body in bodies.iter().take(4) {
+        for i in 0..MACRO05_HEAD.len() {
+            for delta in [1u8, 0x20] {
+                let mut s = MACRO05_HEAD.to_vec();
+                s[i] ^= delta;
+                s.extend_from_slice(body);
+                s.extend_from_slice(MACRO_TRAIL);
+                out.push(s);
+            }
+        }
+    }
     // near misses: one byte of the head changed, trailer with one byte changed, head "07"
     for body in bodies.iter().take(6) {
         let mut s = b"[)>\x1E07\x1D".to_vec();
